@@ -300,9 +300,10 @@ static void observe(const char* who, fixed_vector<Elem<C>>& v, Model& m, const s
     for (int id : byidx)
         if (id <= 0)
         {
+            // a C06 verdict; the comparison with the reference below gives C07's verdict on the same state
             viol("C06", id == 0 ? "unfilled-slot-visible" : "moved-from-husk-visible",
                  after + ": " + who + " shows " + ids_str(byidx));
-            return;
+            break;
         }
     if (n != m.ids.size())
     {
